@@ -108,6 +108,18 @@ def _check_then_create_at(ctx, pt) -> int:
                     held.pop()
             elif e[0] == "exists-check":
                 last_check_inside["locked"] = any(isinstance(h, Obj) and (id(h) in shared_locks or getattr(h, "shared", False)) for h in held)
+                # what connect decides from the catalog it decides under the lock: outside it, another connect may be half-way through
+                # creating the very database (ATTACH done, bootstrap pending), and "exists" then means "exists, incomplete"
+                n += 1
+                okc = last_check_inside["locked"]
+                site = e[2] if len(e) > 2 else None
+                ctx.ob("C19.a", f"{where}: existence check made under the instance's lock", okc, f"fakesnow:{getattr(site, 'lineno', 0)}")
+                if not okc:
+                    ctx.violation("C19.a", "instance", "FakeSnow.connect", "existence check outside the connect lock",
+                                  f"fakesnow:{getattr(site, 'lineno', 0)}",
+                                  f"with {where}: connect asks the catalog whether the database / schema exists without holding the lock that "
+                                  f"serialises connects: a concurrent first connect has attached the database but not finished bootstrapping it, so "
+                                  f"the second session proceeds on a half-initialised database")
             elif e[0] == "creates-shared":
                 n += 1
                 locked = any(isinstance(h, Obj) and h.kind == "lock" and id(h) in shared_locks for h in held)
